@@ -733,6 +733,11 @@ func runC11(r *fw.Run) {
 	})
 	// receive into other kinds of out-parameters: a struct and a map (values must be what the frame says)
 	c11Typed(r, srvs[0])
+	for k := 0; k < r.Pick(4, 40) && r.ViolationCount() <= 12; k++ {
+		r.Journal(0, map[string]interface{}{"what": "polling receive", "k": k})
+		c11Polling(r, r.Pick(300, 1500), []string{"whole", "partial-first"}[k%2])
+		r.Done(0)
+	}
 }
 
 // c11Typed: decoding into the caller's typed value.
@@ -771,6 +776,81 @@ func c11Typed(r *fw.Run, srv *RawServer) {
 	r.Count("typed_receives", 2)
 }
 
+// c11Polling: a caller that polls for a reply with very short deadlines while the peer stays silent. Every poll fails
+// with a context / timeout error - none "succeeds" with a reply that was never sent - and when the reply finally comes the
+// next receive yields exactly it.
+func c11Polling(r *fw.Run, polls int, mode string) {
+	cse := map[string]interface{}{"what": "polling receive", "polls": polls, "mode": mode}
+	path := filepath.Join(r.WorkDir, fmt.Sprintf("poll%d", r.Seq()))
+	l, err := net.Listen("unix", path)
+	if err != nil {
+		r.Inconclusive("polling: %v", err)
+		return
+	}
+	defer l.Close()
+	release := make(chan struct{})
+	reply := []byte(`{"parameters":{"answer":42,"s":"after the polls"}}` + "\x00")
+	go func() {
+		c, err := l.Accept()
+		if err != nil {
+			return
+		}
+		defer c.Close()
+		buf := make([]byte, 4096)
+		for {
+			n, err := c.Read(buf)
+			if err != nil || (n > 0 && buf[n-1] == 0) {
+				break
+			}
+		}
+		<-release
+		if mode == "partial-first" {
+			c.Write(reply[:20])
+			time.Sleep(3 * time.Millisecond)
+			c.Write(reply[20:])
+		} else {
+			c.Write(reply)
+		}
+		time.Sleep(50 * time.Millisecond)
+	}()
+	ctx, cancel := context.WithTimeout(context.Background(), 60*time.Second)
+	defer cancel()
+	conn, err := varlink.NewConnection(ctx, "unix:"+path)
+	if err != nil {
+		close(release)
+		r.Inconclusive("polling: connect: %v", err)
+		return
+	}
+	defer conn.Close()
+	recv, err := conn.Send(ctx, "org.example.Poll", nil, 0)
+	if err != nil {
+		close(release)
+		r.Violation("C11 send-failed", err.Error(), cse)
+		return
+	}
+	bad := 0
+	for i := 0; i < polls; i++ {
+		pctx, pcancel := context.WithTimeout(ctx, time.Duration(200+i%7*100)*time.Microsecond)
+		var out json.RawMessage
+		fl, err := recv(pctx, &out)
+		pcancel()
+		if err == nil {
+			bad++
+			if bad <= 3 {
+				r.Violation("C11 success-without-reply", fmt.Sprintf("poll %d of %d (deadline %d us) on a connection whose peer has sent nothing returned success (flags %d, out %q)", i, polls, 200+i%7*100, fl, clip(string(out), 60)), cse)
+			}
+		}
+		r.Count("polls_on_a_silent_peer", 1)
+	}
+	close(release)
+	var out json.RawMessage
+	_, err = recv(ctx, &out)
+	if bad == 0 && (err != nil || jEqual([]byte(`{"answer":42,"s":"after the polls"}`), out) != "") {
+		r.Violation("C11 reply-lost-after-polls", fmt.Sprintf("after %d polls that timed out the peer sent its reply; receive returned %q, %v", polls, clip(string(out), 100), err), cse)
+	}
+	r.Case(fw.Hash("polling", mode, fmt.Sprint(polls)), true)
+}
+
 func replayC11(r *fw.Run, raw json.RawMessage) {
 	var c c11Case
 	if json.Unmarshal(raw, &c) != nil || c.Stream == nil {
@@ -797,7 +877,7 @@ func replayC11(r *fw.Run, raw json.RawMessage) {
 func init() {
 	fw.Register(&fw.Engine{
 		ID: "C11", Level: "fault_enumeration",
-		Rule: "reply streams = sequences of valid reply / continues / error frames with generated parameters (number spellings beyond 2^53 and 2^64, exponents, unicode), 50 shape cases (null, {}, non-object values, non-boolean continues, non-string error, the four org.varlink.service errors with good / missing / ill-typed / non-object parameters, case-variant and duplicate members, trailing garbage, invalid UTF-8), byte-level mutants (flips, deleted/inserted bytes and NULs), random bytes, a valid frame followed by a tail without NUL. A case = (stream, server death offset k, segmentation): EVERY k in 0..len(stream) plus 3 partitions of the complete stream (one write, byte-wise, random with pauses). The real Connection calls Send once and receive until the stream ends. Oracle per receive call (model A.3): valid reply => parameters number-exact and Continues iff set; error frame => the dedicated typed error with the right field for the four reserved names, else *varlink.Error with exactly that name and JSON-equal parameters; invalid JSON / wrong shape => some error; stream ended before the NUL => io.ErrUnexpectedEOF; never a panic. Plus all 16 flag words x 3 parameter kinds: forbidden combinations are refused with zero bytes on the wire (barrier call on the same connection), legal ones put exactly the requested members on the wire and never continues. non-trivial = stream longer than one byte / non-zero flag word; distinct by (stream hash, offset, partition). One receive in five passes nil as out parameter (values not wanted): same flags, same errors. A sample of the streams is also played to a client that reaches the scripted server through a bridge subprocess.",
+		Rule: "reply streams = sequences of valid reply / continues / error frames with generated parameters (number spellings beyond 2^53 and 2^64, exponents, unicode), 50 shape cases (null, {}, non-object values, non-boolean continues, non-string error, the four org.varlink.service errors with good / missing / ill-typed / non-object parameters, case-variant and duplicate members, trailing garbage, invalid UTF-8), byte-level mutants (flips, deleted/inserted bytes and NULs), random bytes, a valid frame followed by a tail without NUL. A case = (stream, server death offset k, segmentation): EVERY k in 0..len(stream) plus 3 partitions of the complete stream (one write, byte-wise, random with pauses). The real Connection calls Send once and receive until the stream ends. Oracle per receive call (model A.3): valid reply => parameters number-exact and Continues iff set; error frame => the dedicated typed error with the right field for the four reserved names, else *varlink.Error with exactly that name and JSON-equal parameters; invalid JSON / wrong shape => some error; stream ended before the NUL => io.ErrUnexpectedEOF; never a panic. Plus all 16 flag words x 3 parameter kinds: forbidden combinations are refused with zero bytes on the wire (barrier call on the same connection), legal ones put exactly the requested members on the wire and never continues. non-trivial = stream longer than one byte / non-zero flag word; distinct by (stream hash, offset, partition). One receive in five passes nil as out parameter (values not wanted): same flags, same errors. A sample of the streams is also played to a client that reaches the scripted server through a bridge subprocess. Polling: 300 (thorough 1500) receives with deadlines of 0.2-0.8 ms on a peer that stays silent all fail; the reply sent afterwards is received intact.",
 		Assumptions: []string{"the scripted server reads the complete request frame before it dies, so the client sees an orderly end of stream, not a reset", "frames with case-variant or duplicate members are judged for panics only"},
 		Run:         runC11, Replay: replayC11, CrashIsViolation: true, MinEvals: 1000,
 		QuickTimeout: 15 * time.Minute, ThoroughTimeout: 60 * time.Minute,
